@@ -108,7 +108,9 @@ static void compare(const bxdecay0::event & ev, const vh::Recorder & rec, const 
         if (e.name == "pair" && e.depth == pair_depth) pair_depth = -1;
         continue;
       }
+      if (e.kind == 2 && e.name == "bb_pair") npart += 2; // the two leptons are appended by decay0_bb itself
       if (e.kind != 0 || is_port_only(e.name)) continue;
+      if (e.name.compare(0, 7, "scheme:") == 0) continue;  // routine entries are not emissions (compared by C05)
       if (e.name == "pair") {
         pair_depth    = e.depth;
         in_pair_count = 0;
@@ -129,15 +131,19 @@ static void compare(const bxdecay0::event & ev, const vh::Recorder & rec, const 
   }
   for (size_t i = 0; i < ref_trace_size(); i++) {
     const ref_event * e = ref_trace_get(i);
+    if (std::strncmp(e->name, "scheme:", 7) == 0) continue;
     rt.push_back({e->name, std::vector<double>(e->a, e->a + e->n)});
   }
   // documented deviation: Y90's internal-pair branch has a revised positron spectrum in the port
   bool y90pair = false;
-  for (size_t i = 0; i + 1 < rt.size(); i++)
-    if (lower(rt[i].name) == "pair" && close_rel(rt[i].a[0], 0.739, 1e-12) ) {
-      for (const auto & e : rt)
-        if (lower(e.name) == "scheme:y90") y90pair = true;
+  {
+    bool in_y90 = false;
+    for (size_t i = 0; i < ref_trace_size(); i++) {
+      const ref_event * e = ref_trace_get(i);
+      if (lower(e->name) == "scheme:y90") in_y90 = true;
+      if (in_y90 && lower(e->name) == "pair" && close_rel(e->a[0], 0.739, 1e-12)) y90pair = true;
     }
+  }
   if (y90pair) {
     r.cls = "y90-pair-deviation";
     // prefix before the pair must agree; then the port emits e- and e+ along one direction with Ee+ + Ee- = 0.739
@@ -295,6 +301,50 @@ static void dump_sch_trace(const vh::Recorder & rec, const vh::PlanSource & src)
   }
 }
 
+static FILE * bb_out = nullptr;
+
+static long long i8(double mev) { return std::llround(mev * 1e8); }
+
+// Projection of the double-beta sampler's steps for spec/TraceBB.tla (energies in 0.01 eV)
+static void dump_bb_trace(const vh::Recorder & rec, const vh::PlanSource & src)
+{
+  if (!bb_out) return;
+  std::fprintf(bb_out, "{\"e\":\"Reset\"}\n");
+  int bdepth = -1;
+  auto next_u = [&](const vh::Ev & e) { return e.draws < src.log.size() ? src.log[e.draws] : 0.5; };
+  for (const auto & e : rec.evs) {
+    if (e.kind == 0 && e.name == "bb") {
+      bdepth = e.depth;
+      std::fprintf(bb_out, "{\"e\":\"Enter\",\"mode\":%d,\"zneg\":%d,\"q\":%lld,\"edl\":%lld,\"ek\":%lld,\"ebb1\":%lld,\"ebb2\":%lld,\"started\":%d}\n",
+                   (int)e.a[0], e.a[5] < 0 ? 1 : 0, i8(e.a[2]), i8(e.a[3]), i8(e.a[4]), i8(e.a[7]), i8(e.a[8]), (int)e.a[1]);
+    } else if (bdepth < 0) {
+      continue;
+    } else if (e.kind == 1 && e.name == "bb" && e.depth == bdepth) {
+      std::fprintf(bb_out, "{\"e\":\"Leave\"}\n");
+      bdepth = -1;
+    } else if (e.kind == 2 && e.name == "bb_init") {
+      std::fprintf(bb_out, "{\"e\":\"Init\",\"e0\":%lld,\"ebb1\":%lld,\"ebb2\":%lld,\"imax\":%d}\n", i8(e.a[0]), i8(e.a[1]), i8(e.a[2]), (int)e.a[5]);
+    } else if (e.kind == 2 && e.name == "bb_trial1") {
+      int acc = !(e.a[2] * next_u(e) > e.a[3]);
+      std::fprintf(bb_out, "{\"e\":\"T1\",\"e1\":%lld,\"k\":%d,\"acc\":%d}\n", i8(e.a[0]), (int)e.a[1], acc);
+    } else if (e.kind == 2 && e.name == "bb_trial2") {
+      int acc = !(e.a[2] * next_u(e) > e.a[1]);
+      std::fprintf(bb_out, "{\"e\":\"T2\",\"e2\":%lld,\"acc\":%d}\n", i8(e.a[0]), acc);
+    } else if (e.kind == 2 && e.name == "bb_pair") {
+      std::fprintf(bb_out, "{\"e\":\"Pair\",\"e1\":%lld,\"e2\":%lld}\n", i8(e.a[0]), i8(e.a[1]));
+    } else if (e.kind == 2 && e.name == "bb_trial3") {
+      double ct = e.a[0];
+      int acc   = !(e.a[4] * next_u(e) > e.a[1] + e.a[2] * ct + e.a[3] * ct * ct);
+      std::fprintf(bb_out, "{\"e\":\"T3\",\"acc\":%d}\n", acc);
+    } else if (e.kind == 2 && e.name == "bb_trial4") {
+      std::fprintf(bb_out, "{\"e\":\"T4\",\"acc\":%d}\n", !(e.a[1] > e.a[0]));
+    } else if (e.kind == 0 && e.name == "particle" && e.depth == bdepth + 1) {
+      int c = (int)e.a[0];
+      std::fprintf(bb_out, "{\"e\":\"Part\",\"c\":\"%s\"}\n", c == 1 ? "g" : c == 2 ? "e+" : c == 3 ? "e-" : "a");
+    }
+  }
+}
+
 static void emit(const std::string & id, const Result & r, const std::string & extra = "")
 {
   std::printf("{\"id\":\"%s\",\"cls\":\"%s\",\"detail\":\"%s\",\"ndraws\":%zu,\"np\":%zu,\"min_margin\":%.3g,\"pair\":%s,\"sig\":\"%s\"%s}\n",
@@ -338,6 +388,7 @@ int main(int argc, char ** argv)
   for (int i = 1; i < argc; i++) {
     if (std::string(argv[i]) == "--trace" && i + 1 < argc) trace_out = std::fopen(argv[++i], "w");
     if (std::string(argv[i]) == "--sch-trace" && i + 1 < argc) sch_out = std::fopen(argv[++i], "w");
+    if (std::string(argv[i]) == "--bb-trace" && i + 1 < argc) bb_out = std::fopen(argv[++i], "w");
   }
   std::set<std::string> ref_bkg_inited;
   std::string line;
@@ -436,34 +487,54 @@ int main(int argc, char ** argv)
         plans.push_back(pl);
       }
       std::vector<double> tplan;
+      bxdecay0::bbpars pars;
       {
+        // optional trailers: "T k v1..vk" transition-outcome deviates; "N c1..c7" nuclear matrix elements of the
+        // rhc-eta mode, set on both sides (Decay0: COMMON /eta_nme/)
+        double nme[7] = {0, 0, 0, 0, 0, 0, 0};
         std::string tag;
-        if (ls >> tag && tag == "T") {
-          size_t k;
-          ls >> k;
-          for (size_t i = 0; i < k; i++) {
-            std::string s;
-            ls >> s;
-            tplan.push_back(parse_plan_val(s));
+        while (ls >> tag) {
+          if (tag == "T") {
+            size_t k;
+            ls >> k;
+            for (size_t i = 0; i < k; i++) {
+              std::string s;
+              ls >> s;
+              tplan.push_back(parse_plan_val(s));
+            }
+          } else if (tag == "N") {
+            for (int i = 0; i < 7; i++) ls >> nme[i];
           }
         }
+        pars.chi_GTw = eta_nme_.chi_GTw = nme[0];
+        pars.chi_Fw  = eta_nme_.chi_Fw  = nme[1];
+        pars.chip_GT = eta_nme_.chip_GT = nme[2];
+        pars.chip_F  = eta_nme_.chip_F  = nme[3];
+        pars.chip_T  = eta_nme_.chip_T  = nme[4];
+        pars.chip_P  = eta_nme_.chip_P  = nme[5];
+        pars.chip_R  = eta_nme_.chip_R  = nme[6];
       }
-      bxdecay0::bbpars pars;
       if (semin != "x") pars.ebb1 = std::atof(semin.c_str());
       if (semax != "x") pars.ebb2 = std::atof(semax.c_str());
       // reference window
       enrange_.ebb1 = (semin != "x") ? std::atof(semin.c_str()) : 0.0;
       enrange_.ebb2 = (semax != "x") ? std::atof(semax.c_str()) : 4.3;
       int ier = 0, rier = 0;
-      vh::stream initsrc(seed);
+      vh::Recorder irec;
+      vh::PlanSource initsrc(seed);
+      initsrc.rec     = &irec;
+      irec.draws_ptr  = &initsrc.ndraws;
       bxdecay0::event dummy;
       Result r0;
+      irec.install();
       try {
         bxdecay0::genbbsub(initsrc, dummy, bxdecay0::GENBBSUB_I2BBS_DBD, name, level, mode, bxdecay0::GENBBSUB_ISTART_INIT, ier, pars);
       } catch (std::exception & e) {
         ier      = -1;
         r0.detail = e.what();
       }
+      vh::Recorder::uninstall();
+      if (ier == 0) dump_bb_trace(irec, initsrc);
       std::vector<double> none;
       run_reference(1, name, level, mode, -1, none, rier);
       char extra[400];
@@ -475,7 +546,8 @@ int main(int argc, char ** argv)
       } else if (ier == 0) {
         bool gaussmode = (mode == 10);
         double tol     = gaussmode ? 3e-4 : 1e-6;
-        if (!close_rel(pars.toallevents, enrange_.toallevents, tol)) {
+        bool toall_defined = !(mode == 9 || mode == 11 || mode == 12); // decay0's bb returns before computing it
+        if (toall_defined && !close_rel(pars.toallevents, enrange_.toallevents, tol)) {
           r0.cls    = "toallevents";
           r0.detail = "port " + fmt(pars.toallevents) + " reference " + fmt(enrange_.toallevents);
         } else if (!close_rel(pars.ebb1, enrange_.ebb1, 1e-9) && std::fabs(pars.ebb1 - enrange_.ebb1) > 1e-12) {
@@ -514,18 +586,26 @@ int main(int argc, char ** argv)
           size_t used  = run_reference(1, name, level, mode, 1, src.log, rier);
           r.min_margin = min_margin(rec.evs, src.log);
           compare(ev, rec, src, used, r);
-          if (r.cls != "agree" && r.min_margin < (mode == 4 || mode == 5 || mode == 6 || mode == 8 || mode >= 13 ? 1e-3 : KNIFE)) {
+          if (r.cls == "momentum") {
+            // named deviation: Decay0's fermi(Z,E) raises an argument below 50 eV to 50 eV *in place* (Fortran passes
+            // by reference), so a lepton sampled below 50 eV leaves the reference with exactly 50 eV
+            for (const auto & e : rec.evs)
+              if (e.kind == 2 && e.name == "bb_pair" && (e.a[0] < 50e-6 || e.a[1] < 50e-6)) r.cls = "ref-fermi-clamp-excluded";
+          }
+          if (r.cls != "agree" && r.cls != "ref-fermi-clamp-excluded" && r.min_margin < (mode == 4 || mode == 5 || mode == 6 || mode == 8 || mode >= 13 ? 1e-3 : KNIFE)) {
             r.detail = "(knife-edge margin " + fmt(r.min_margin) + ") " + r.cls + ": " + r.detail;
             r.cls    = "knife-edge-excluded";
           }
         }
         dump_trace(id + ":" + std::to_string(iev), name, rec, src, ev);
         dump_sch_trace(rec, src);
+        dump_bb_trace(rec, src);
         emit(id + ":" + std::to_string(iev), r);
       }
     }
   }
   if (trace_out) std::fclose(trace_out);
   if (sch_out) std::fclose(sch_out);
+  if (bb_out) std::fclose(bb_out);
   return 0;
 }
